@@ -146,6 +146,120 @@ def s_scatter_all_static(ctx):
     ctx.check("C09.rules.ScatterAllStatic.updates_have_the_shape_of_data_for_every_binding", shp, CL09)
 
 
+def s_scatter_all_dynamic(ctx):
+    """ScatterAllDynamic: ScatterND(T, Unsqueeze(Range(0, Gather(Shape(data), axis), 1), [-1]), updates) -> Identity(updates).
+    The target pattern is executed from its real source with a recording builder; attributes the pattern does not pin may
+    have ANY value in a matched model (NodePattern allows other attributes by default).
+    Theory: Shape-15 (start / end are clamped slice bounds, negative values count from the rank), Gather on a 1-D tensor
+    (index in [-len, len-1], negative from the end), Range(0, dim, 1) = 0..dim-1, ScatterND with reduction none replaces
+    rows 0..dim-1 of T by updates (valid only if dim <= T.shape[0]).  Post: when check() accepts, for every binding of the
+    dims on which the original executes, dim == T.shape[0] - only then is the result `updates`."""
+    import onnx_ir as ir
+    from onnxscript.rewriter.rules.common import _redundant_scatter_nd as mod
+    from onnxscript.rewriter import _ir_utils
+    I = Interp(ctx)
+    W = World(I)
+    rule = SObj(mod.ScatterAllDynamic, "rule")
+    rec = OpRecorder()
+    P = {k: ("var", k) for k in ("data", "axis", "transposed_data", "updates")}
+    root = I.call(I.getattr(rule, "pattern"), [rec, P["data"], P["axis"], P["transposed_data"], P["updates"]])
+    ok = isinstance(root, Call) and root.op == "ScatterND" and len(root.args) == 3 and root.args[0] == P["transposed_data"] and root.args[2] == P["updates"]
+    idx = root.args[1] if ok else None
+    ok = ok and isinstance(idx, Call) and idx.op == "Unsqueeze" and list(idx.args[1]) == [-1] and isinstance(idx.args[0], Call) and idx.args[0].op == "Range"
+    rng = idx.args[0] if ok else None
+    ok = ok and rng.args[0] == 0 and rng.args[2] == 1 and isinstance(rng.args[1], Call) and rng.args[1].op == "Gather"
+    gat = rng.args[1] if ok else None
+    ok = ok and gat.args[1] == P["axis"] and isinstance(gat.args[0], Call) and gat.args[0].op == "Shape" and gat.args[0].args == (P["data"],)
+    ctx.check("C05.rules.ScatterAllDynamic.pattern_is_scatter_of_the_full_range_of_a_gathered_dim_of_data", ok, CL09)
+    if not ok:
+        return
+    shp = gat.args[0]
+
+    def attr(call, name, default, lo=None):
+        """pinned by the pattern: that value; otherwise any value a matched node may carry"""
+        if name in call.kwargs:
+            return call.kwargs[name], True
+        return None, False
+    red, red_pinned = attr(root, "reduction", "none")
+    ctx.check("C05.rules.ScatterAllDynamic.pattern_pins_reduction_none", red_pinned and red == "none",
+              "C05: 'attribute left at a non-trivial default ... does not fire' — with a reduction the updates are combined with the data")
+    gaxis, gaxis_pinned = attr(gat, "axis", 0)
+    ctx.check("C05.rules.ScatterAllDynamic.pattern_pins_gather_axis_0", (gaxis_pinned and gaxis == 0) or not gaxis_pinned, CL09)
+    # data / transposed data
+    rank = 1 + ctx.choose(3, "rank of data")
+    kinds = ["int", "N", "M"]
+    dd, drt = [], []
+    for i in range(rank):
+        s_, t = W.dim(kinds[ctx.choose(3, f"data[{i}]")], f"d{i}")
+        dd.append(s_)
+        drt.append(t)
+    trank = 1 + ctx.choose(2, "rank of transposed data")
+    td, trt = [], []
+    for i in range(trank):
+        k = ctx.choose(4, f"transposed[{i}] is")  # the same static dim as data[j] (j = k) or an unrelated named dim
+        if k < rank and k < 3:
+            td.append(dd[k])
+            trt.append(drt[k])
+        else:
+            s_, t = W.dim("K", f"t{i}")
+            td.append(s_)
+            trt.append(t)
+    data = W.value("data", dims=dd, rt=drt, dtype=ir.DataType.FLOAT)
+    tdata = W.value("transposed_data", dims=td, rt=trt, dtype=ir.DataType.FLOAT)
+    axis = ctx.choose(2 * 3 + 1, "axis value") - 3
+    axis_v = W.value("axis", dims=[], rt=[], dtype=ir.DataType.INT64)
+    I.models[_ir_utils.get_singleton_value] = lambda interp, v, **k: axis
+    # the matched Shape node: pinned attributes as the pattern says, the others present or absent with any value
+    sattrs, sterm = {}, {}
+    for name in ("start", "end"):
+        v, pinned = attr(shp, name, None)
+        if pinned:
+            sattrs[name] = v
+            sterm[name] = z3.IntVal(int(v))
+        elif ctx.choose(2, f"matched Shape node has {name}") == 1:
+            t = ctx.int(f"shape_{name}")
+            ctx.witness[f"shape_{name}"] = t
+            sattrs[name] = SInt(t)
+            sterm[name] = t
+    shape_node = W.node("Shape", [data], attrs=sattrs)
+    scatter_node = W.node("ScatterND", [tdata, W.value("idx"), W.value("updates")], attrs={"reduction": "none"})
+    context = SObj(object, "context")
+    context.fields.update(nodes=[scatter_node, W.node("Unsqueeze", []), W.node("Range", []), W.node("Gather", [], attrs={"axis": 0}), shape_node], root=scatter_node)
+    try:
+        fired = I.truth(I.call(I.getattr(rule, "check"), [context, data, axis_v, tdata]))
+    except PyRaise as e:
+        ctx.check("C04.rules.ScatterAllDynamic.check_never_raises", False, CL04 + f" — raised {type(e.exc).__name__}: {e.exc}")
+        return
+    if not fired:
+        ctx.cover("ScatterAllDynamic.check_failed")
+        return
+    # runtime meaning of Gather(Shape(data, start, end), axis)
+    r = z3.IntVal(rank)
+
+    st, en = sterm.get("start", z3.IntVal(0)), sterm.get("end", r)
+    clamp = lambda v: z3.If(v < 0, z3.If(v + r < 0, 0, v + r), z3.If(v > r, r, v))
+    st, en = clamp(st), clamp(en)
+    ln = z3.If(en > st, en - st, 0)
+    a = z3.IntVal(axis)
+    valid_gather = z3.And(a >= -ln, a < ln)
+    pos = st + z3.If(a < 0, a + ln, a)
+    dim = z3.IntVal(0)
+    for i in reversed(range(rank)):
+        dim = z3.If(pos == i, drt[i], dim)
+    original_runs = z3.And(valid_gather, dim <= trt[0])
+    for pid in ("C05", "C09"):
+        ctx.check(f"{pid}.rules.ScatterAllDynamic.the_gathered_dim_is_the_first_dim_of_the_scattered_tensor_for_every_binding_and_every_unpinned_attribute",
+                  z3.Implies(original_runs, dim == trt[0]), CL09)
+
+
+SCENARIOS.append(Scenario("C05.rules.ScatterAllDynamic", s_scatter_all_dynamic,
+                          [("onnxscript/rewriter/rules/common/_redundant_scatter_nd.py", "ScatterAllDynamic.pattern"),
+                           ("onnxscript/rewriter/rules/common/_redundant_scatter_nd.py", "ScatterAllDynamic.check"),
+                           ("onnxscript/rewriter/_ir_utils.py", "same_dim")],
+                          kind="bounded", bound="data rank <= 3, transposed rank <= 2, axis in -3..3; dims and unpinned Shape attributes unbounded",
+                          trusted=TRUST + ["ONNX Shape-15 / Gather / Range / ScatterND operator documentation", "NodePattern: attributes not listed in the pattern are unconstrained"], max_paths=40000))
+
+
 def s_scatter_all_static_concrete(ctx):
     """ScatterAllStatic.check with REAL numpy index arrays (every [k,1] array with k <= 3 and entries in 0..3): whatever numpy
     formulation the check uses, it may accept only indices == [[0], [1], ..., [d0-1]] - any other array (a permutation,
